@@ -1,11 +1,14 @@
 (* C23 — The API series cache returns correctly placed, fresh data under concurrency.
    Model: Cache2/Model.v (one step = one API call run to quiescence, incl. the trim goroutine);
    tied to internal/api/tscache2*.go by the correspondence harness (cache2_verif_test.go).
-   What is proved for ALL histories is the per-chunk protocol (loading / awaiters / invalidation mark);
-   the whole-cache clauses are proved for all histories of a bounded length over two alphabets of calls
-   (names end in _partial and say the bound). *)
+   Proved for ALL histories of the whole cache: memory accounting (water levels = what buckets and chunks hold,
+   zero when emptied), for the code as it is and for the repaired trim loop.  Proved for all bucket states and
+   requests: a request becomes an awaiter only of a chunk that is being loaded.  Proved for all event sequences on
+   one chunk: the loading / awaiters / invalidation-mark protocol (freshness).  Placement, completeness, the
+   whole-cache form of freshness, the hard limit at rest and 'nobody waits without a load' remain bounded sweeps
+   (names end in _bounded_partial and say the bound). *)
 From Coq Require Import ZArith List Bool.
-From SH Require Import Cache2.Model Cache2.ProofsChunk Cache2.ProofsSweep.
+From SH Require Import Cache2.Model Cache2.ProofsChunk Cache2.ProofsAcc Cache2.ProofsAwait Cache2.ProofsKey Cache2.ProofsSweep.
 Import ListNotations.
 Open Scope Z_scope.
 
@@ -47,11 +50,49 @@ Theorem C23_wait_implies_load : forall CS step tnow stale force c,
   snd (decide CS step tnow stale force c) = true -> fst (decide CS step tnow stale force c) = true.
 Proof. exact decide_wait_load. Qed.
 
+(* "Memory accounting returns to zero once the cache is emptied": for EVERY history of calls (any ranges, steps,
+   play modes, storage results, invalidations, resets, limits, shutdown; chunk size, row sizes and both variants
+   of the trim loop arbitrary) the water levels equal what the structure holds after every step: size = sum of the
+   chunk sizes, bucket count = number of buckets, chunk count and chunk length = number of chunks (x chunk size). *)
+Theorem C23_accounting_all_histories : forall CS COL ROW FX ops,
+  let s := fst (run CS COL ROW FX st0 ops) in
+  isize (inf s) = bsum c_size (bks s) /\ tot (i_bc (inf s)) = zlen (bks s) /\
+  tot (i_cc (inf s)) = bsum one (bks s) /\ tot (i_cs (inf s)) = CS * bsum one (bks s).
+Proof. exact accounting_all_histories. Qed.
+
+(* ... hence all of them are zero whenever no bucket is left (after reset, after trimming everything) *)
+Theorem C23_accounting_zero_when_empty : forall CS COL ROW FX ops,
+  let s := fst (run CS COL ROW FX st0 ops) in
+  bks s = [] -> isize (inf s) = 0 /\ tot (i_bc (inf s)) = 0 /\ tot (i_cc (inf s)) = 0 /\ tot (i_cs (inf s)) = 0.
+Proof. exact accounting_zero_when_empty. Qed.
+
+(* "... and no request waits forever": for every bucket state and every request, cache2Loader.init (decision table
+   + absorption of chunks between the first and the last chunk it loads itself) registers the request as an awaiter
+   only on a chunk whose loading count is not zero, i.e. on which a storage call is in flight; that call takes
+   every awaiter when it returns (C23_finish_signals_every_awaiter). *)
+Theorem C23_await_only_on_loading_chunk : forall CS step tnow stale force cs k c,
+  nth_error cs k = Some c ->
+  nth_error (dispositions CS step tnow stale force cs) k = Some DAwait ->
+  c_loading c <> 0.
+Proof. exact await_only_on_loading_chunk. Qed.
+
+(* "... never rows of another query ...": for EVERY history whose request ids increase (ids only name requests),
+   the invariant KInv holds in the state reached: every row cached in a chunk of a bucket (or of a detached chunk)
+   carries that bucket's shard step and query key; every row in the buffer of a request in flight carries that
+   request's shard step and query key (the answer is a slice of that buffer); every awaiter registered on a chunk
+   belongs to a request of the same shard and query.  Proved through Get (decision table, absorption, copy),
+   LoadDone ok/err with awaiter fan-out, Invalidate, Reset, SetLimits/trimming (both variants of the trim loop),
+   Shutdown.  Partial: it speaks of shard and query, not of the slot's time (placement in time stays bounded
+   below), and the returned slice is tied to the buffer by the model's definition of an answer, not by a theorem. *)
+Theorem C23_rows_of_own_query_all_histories_partial : forall CS COL ROW FX ops,
+  rids_inc 0 ops -> exists G, KInv G (fst (run CS COL ROW FX st0 ops)).
+Proof. exact rows_of_own_query. Qed.
+
 (* "every successful non-play request returns, for each slot of the requested range, exactly the rows the storage
    produced for that slot's time, never rows of another query or slot, and never rows from a load that finished
    before an invalidation of that slot completed before the request began. Memory accounting returns to zero
    once the cache is emptied, and no request waits forever."
-   Partial (bounded): for EVERY history of 4 calls over alpha1 (ticks of 1 ms and 20 s, three overlapping requests
+   Partial (bounded; the accounting clause is proved for all histories above): for EVERY history of 4 calls over alpha1 (ticks of 1 ms and 20 s, three overlapping requests
    incl. one starting mid-chunk and one spanning four chunks, storage calls 1-3 returning, call 1 failing, an
    invalidation, reset, a 1-byte memory limit) run_ok holds, i.e. after every step: every returned answer has
    one cell per requested slot, each carrying the request's shard, query and that slot's time (placement), none
@@ -59,13 +100,13 @@ Proof. exact decide_wait_load. Qed.
    (freshness); the water levels equal what buckets and chunks hold, are zero when no bucket is left, and stay
    within the hard limit (accounting); nobody waits and no chunk is marked loading unless a storage call is in
    flight, and awaiters sit only on chunks being loaded. *)
-Theorem C23_all_clauses_bounded_partial :
+Theorem C23_placement_freshness_waits_bounded_partial :
   forall ops, length ops = 4%nat -> Forall (fun o => In o alpha1) ops -> run_ok 2 24 1456 false [] (st0, []) ops = true.
 Proof. exact bounded_all_clauses. Qed.
 
 (* the same clauses for every history of 6 calls over alpha2 (20 s tick, two overlapping requests, their storage
    calls, an invalidation): long enough for load / await / invalidate / reload / hit sequences *)
-Theorem C23_all_clauses_bounded_deep_partial :
+Theorem C23_placement_freshness_waits_bounded_deep_partial :
   forall ops, length ops = 6%nat -> Forall (fun o => In o alpha2) ops -> run_ok 2 24 1456 false [] (st0, []) ops = true.
 Proof. exact bounded_all_clauses_deep. Qed.
 
@@ -97,6 +138,24 @@ Example C23_nonvacuous_history :
   inf (fst (run 2 24 1456 false st0 ex_h)) = info0 /\
   run_ok 2 24 1456 false [] (st0, []) ex_h = true.
 Proof. vm_compute. repeat split; reflexivity. Qed.
+
+(* KInv is not vacuous: after this history a chunk holds rows, a request is in flight and an awaiter is registered *)
+Example C23_nonvacuous_own_query :
+  let ops := [Get 1 1 1 (-8) (-4) 0 false; Get 2 1 1 (-5) (-2) 0 false] in
+  rids_inc 0 ops /\ length (reqs (fst (run 2 24 1456 false st0 ops))) = 2%nat /\
+  length (entries (fst (run 2 24 1456 false st0 ops))) = 3%nat.
+Proof. vm_compute. repeat split; reflexivity. Qed.
+
+(* accounting is not vacuous: a state with two cached chunks whose sizes add up to the water level *)
+Example C23_nonvacuous_accounting :
+  let s := fst (run 2 24 1456 false st0 [Get 1 1 1 (-8) (-4) 0 false; LoadDone 1 true]) in
+  isize (inf s) = 7616 /\ bsum c_size (bks s) = 7616 /\ bsum one (bks s) = 2.
+Proof. vm_compute. repeat split; reflexivity. Qed.
+
+(* the await premise is satisfiable: a chunk without rows that another loader is loading is awaited *)
+Example C23_nonvacuous_await :
+  dispositions 2 1 10 0 false [mkChunk 1 (-8) None [] NEVER 4 4 0 1] = [DAwait].
+Proof. vm_compute. reflexivity. Qed.
 
 (* the swept sets are not trivial: 12^4 and 6^6 histories *)
 Example C23_nonvacuous_alphabets : length alpha1 = 12%nat /\ length alpha2 = 6%nat.
